@@ -559,7 +559,14 @@ fn param_faults(ctx: &Ctx, plan: &mut CallPlan, ep: &EpMeta, wire: &mut WireReq,
             );
         } else if plan.want(ctx, FK::AuthCorrupt) {
             let tok = format!("tok{}", alpha);
-            let (v, what): (Vec<u8>, &str) = match ctx.draw(6) {
+            // the token the client actually sent (it carries the run's canary)
+            let sent_tok: String = wire
+                .header(h)
+                .and_then(|v| std::str::from_utf8(v).ok())
+                .and_then(|v| v.strip_prefix(prefix.as_str()))
+                .unwrap_or(&tok)
+                .to_string();
+            let (v, what): (Vec<u8>, &str) = match ctx.draw(10) {
                 0 => (format!("Basic {}", tok).into_bytes(), "wrong scheme"),
                 1 => (format!("{}bad token{}!", prefix, alpha).into_bytes(), "invalid token characters"),
                 2 => (prefix.trim_end().as_bytes().to_vec(), "empty token"),
@@ -569,7 +576,14 @@ fn param_faults(ctx: &Ctx, plan: &mut CallPlan, ep: &EpMeta, wire: &mut WireReq,
                     b.push(0xe9);
                     (b, "opaque byte")
                 }
-                _ => (format!("{}{}", prefix.to_lowercase().replace("bearer ", "bearer  "), tok).into_bytes(), "case/spacing"),
+                5 => (format!("{}{}", prefix.to_lowercase().replace("bearer ", "bearer  "), tok).into_bytes(), "case/spacing"),
+                // the client forgot the scheme / cookie name: the raw credential alone
+                6 => (sent_tok.clone().into_bytes(), "raw credential without prefix"),
+                // the credential under another cookie name / scheme spelled without a space
+                7 => (format!("TOKEN={}", sent_tok).into_bytes(), "credential under another name"),
+                // another cookie first, the right one second
+                8 => (format!("a={}; {}{}", alpha, prefix, sent_tok).into_bytes(), "credential not first"),
+                _ => (format!("{}{} {}", prefix, sent_tok, alpha).into_bytes(), "credential followed by more text"),
             };
             // the last variant may coincide with a valid header for cookies; judge below
             let still_valid = std::str::from_utf8(&v)
@@ -584,7 +598,8 @@ fn param_faults(ctx: &Ctx, plan: &mut CallPlan, ep: &EpMeta, wire: &mut WireReq,
                 fired,
                 FK::AuthCorrupt,
                 what.to_string(),
-                if still_valid {
+                if still_valid || (what == "credential not first" && prefix != "Bearer ") {
+                    // a Cookie header may legitimately carry other cookies first: the statement is silent
                     Expect::DontCare
                 } else {
                     Expect::Reject {
